@@ -23,6 +23,9 @@ theorem evalImport_any : Post evalImport (fun _ => True) := by
   pm_bind; intro n
   pm_if
   · exact Post.err
+  pm_if
+  · pm_bind; intro _
+    exact Post.pure' trivial
   · exact Post.pure' trivial
 
 theorem registerImported_ok : ∀ (stmts : List Stmt) (ctx : Ctx) (out : List Stmt), CtxOK ctx → stmtsP out → stmtsP stmts →
